@@ -378,6 +378,140 @@ def cancelled_exit_case(ctx, workdir: str, transport_kind: str, k: int, how: str
                       f"context was left the file does not hold the final registry ({diff})", case)
 
 
+def late_exit_case(ctx, workdir: str, periods: int, k: int, mode: str) -> None:
+    """Leave the context while the n-th PERIODIC save (not the first one) is in progress, then keep the loop running for
+    two more save intervals: nothing of the abandoned session may act any more (no save, no task), the file stays the
+    final registry even if the abandoned registry object is changed afterwards."""
+    from aiomysensors.gateway import Config, Gateway
+    from aiomysensors.model.node import Node
+
+    path = os.path.join(workdir, "late.json")
+    prepare_file(path, "missing")
+    case = {"engine": "vloop", "late_exit_periods": periods, "k": k, "mode": mode}
+
+    async def scenario() -> dict:
+        transport = make_transport("scripted", {"mode": mode})
+        gateway = Gateway(transport, Config(persistence_file=path))
+        before = set(asyncio.all_tasks())
+        observed = None
+        try:
+            async with gateway:
+                gateway.nodes[40] = Node(40, 17, "2.0")
+                # wakes in the same virtual instant as the saver's periodic timer; the k extra iterations then walk
+                # through the file operations of that periodic save
+                await asyncio.sleep(SAVE_BOUND * periods)
+                for _ in range(k):
+                    await asyncio.sleep(0)
+                gateway.nodes[41] = Node(41, 17, "2.0", sketch_name="just before exit")
+                final = typed(snap(gateway.nodes))
+                if mode == "body-raises":
+                    raise BodyError("body")
+        except BaseException as exc:  # noqa: BLE001
+            observed = exc
+        status0, disk0 = registry_on_disk(path)
+        # the session is over: whatever the abandoned objects hold must never reach the file again
+        gateway.nodes[99] = Node(99, 17, "zombie")
+        await asyncio.sleep(2 * SAVE_BOUND + 10)
+        status1, disk1 = registry_on_disk(path)
+        left = [repr(t)[:160] for t in asyncio.all_tasks() if t not in before and t is not asyncio.current_task()
+                and not t.done()]
+        for t in [t for t in asyncio.all_tasks() if t is not asyncio.current_task()]:
+            t.cancel()
+        return {"observed": observed, "final": final, "at_exit": (status0, disk0), "later": (status1, disk1), "left": left}
+
+    result, loop = run_virtual(scenario)
+    ctx.case(("late-exit", periods, k, mode), sample=case)
+    ctx.clause("exit-during-periodic-save")
+    if isinstance(result, LogicalDeadlock):
+        ctx.violation("context-deadlock", f"logical deadlock in {case}", case)
+        return
+    if isinstance(result, BaseException):
+        ctx.violation("late-exit-raised", f"{type(result).__name__}: {result!s:.80}", case)
+        return
+    observed = result["observed"]
+    if mode == "normal" and observed is not None or mode == "body-raises" and not isinstance(observed, BodyError):
+        key = "exit-during-save-cancelled" if isinstance(observed, asyncio.CancelledError) else "exit-raises-" + type(observed).__name__
+        ctx.violation(key, f"exit during periodic save #{periods} (k={k}, {mode}) raised {type(observed).__name__}", case)
+    if result["at_exit"] != ("ok", result["final"]):
+        ctx.violation("no-final-save", f"exit during periodic save #{periods} (k={k}): file after exit is not the final registry "
+                                       f"({result['at_exit'][0]})", case)
+    ctx.clause("nothing-acts-after-exit")
+    if result["later"] != result["at_exit"]:
+        ctx.violation("save-after-exit", f"exit during periodic save #{periods} (k={k}, {mode}): {2 * SAVE_BOUND + 10} virtual "
+                                         f"seconds AFTER the context was left the file was rewritten by the abandoned session", case)
+    if result["left"]:
+        ctx.violation("task-left-after-exit", f"tasks alive {2 * SAVE_BOUND + 10} virtual seconds after exit: {result['left']}", case)
+
+
+def long_horizon_case(ctx, workdir: str, hours: int) -> None:
+    """Coarse polling (every 450 virtual seconds) over a long horizon: the periodic saver must still be alive after
+    hundreds / thousands of periods, and leaving the context after that long must still work."""
+    from aiomysensors.gateway import Config, Gateway
+    from aiomysensors.model.node import Node
+
+    path = os.path.join(workdir, "long.json")
+    prepare_file(path, "missing")
+    case = {"engine": "vloop", "long_horizon_hours": hours}
+    poll = 450
+
+    async def scenario() -> dict:
+        loop = asyncio.get_running_loop()
+        gateway = Gateway(ScriptedTransport(), Config(persistence_file=path))
+        problems = []
+        checks = 0
+        observed = None
+        try:
+            async with gateway:
+                end = loop.time() + hours * 3600
+                counter = 0
+                pending: list[tuple[float, int]] = []
+                while loop.time() < end:
+                    await asyncio.sleep(poll)
+                    counter += 1
+                    gateway.nodes[1] = Node(1, 17, "2.0", heartbeat=counter)
+                    pending.append((loop.time(), counter))
+                    if counter % 4 == 0:
+                        status, disk = registry_on_disk(path)
+                        checks += 1
+                        on_disk = dict(disk).get(("int", 1)) if status == "ok" else None
+                        if on_disk is None and counter > 2:
+                            # a save is in progress at this very instant (the file is momentarily empty: that window is
+                            # C15's subject, not C16's): no information from this poll
+                            await asyncio.sleep(7)
+                            status, disk = registry_on_disk(path)
+                            on_disk = dict(disk).get(("int", 1)) if status == "ok" else None
+                        beat = dict(on_disk)[("str", "heartbeat")][1] if on_disk else -1
+                        pending = [(t, c) for t, c in pending if c > beat]
+                        if pending and loop.time() - pending[0][0] > SAVE_BOUND + poll + 1 and not problems:
+                            problems.append(("periodic-save-too-late",
+                                             f"after {loop.time() / 3600:.1f} virtual hours a change made at "
+                                             f"t={pending[0][0]:.0f}s is still not on disk at t={loop.time():.0f}s"))
+                final = typed(snap(gateway.nodes))
+        except BaseException as exc:  # noqa: BLE001
+            observed = exc
+            final = typed(snap(gateway.nodes))
+        status, disk = registry_on_disk(path)
+        if observed is not None:
+            problems.append(("exit-raises-" + type(observed).__name__, f"leaving the context after {hours} virtual hours raised "
+                                                                       f"{type(observed).__name__}: {observed!s:.60}"))
+        if status != "ok" or disk != final:
+            problems.append(("no-final-save", f"after {hours} virtual hours the file after exit is not the final registry"))
+        return {"problems": problems, "checks": checks, "virtual_seconds": loop.time()}
+
+    result, loop = run_virtual(scenario)
+    ctx.case(("long-horizon", hours), sample=case)
+    if isinstance(result, LogicalDeadlock):
+        ctx.violation("context-deadlock", f"logical deadlock in {case}", case)
+        return
+    if isinstance(result, BaseException):
+        ctx.violation("long-horizon-raised", f"{type(result).__name__}", case)
+        return
+    ctx.clause("cadence-poll", result["checks"])
+    ctx.obs("virtual-seconds", int(result["virtual_seconds"]))
+    for key, what in result["problems"][:3]:
+        ctx.violation(key, what, case)
+
+
 def builtin_connect_failure_case(ctx, workdir: str, name: str) -> None:
     """A built-in transport whose connect fails: the context must raise exactly what transport.connect() raises
     (same class), leave no task behind - also when the failure is not a TransportError."""
@@ -731,6 +865,10 @@ def run_case(ctx, case: dict) -> None:
     try:
         if "connect_error" in case:
             connect_failure_case(ctx, workdir, case["connect_error"], case["file"])
+        elif "late_exit_periods" in case:
+            late_exit_case(ctx, workdir, case["late_exit_periods"], case["k"], case["mode"])
+        elif "long_horizon_hours" in case:
+            long_horizon_case(ctx, workdir, case["long_horizon_hours"])
         elif "cancelled_exit" in case:
             cancelled_exit_case(ctx, workdir, case["transport"], case["k"], case["cancelled_exit"], case["file"])
         elif "builtin_connect_failure" in case:
@@ -773,6 +911,13 @@ def run(ctx) -> None:
                 for file_state in ("missing", "present"):
                     if ctx.mine():
                         connect_failure_case(ctx, workdir, name, file_state)
+            for periods in (1, 2, 3):
+                for k in range(0, 16):
+                    for mode in ("normal", "body-raises"):
+                        if ctx.mine():
+                            late_exit_case(ctx, workdir, periods, k, mode)
+            if ctx.shard_index == (1 % ctx.shard_count):
+                long_horizon_case(ctx, workdir, ctx.pick(320, 2000))
             for transport in ("scripted", "mqtt-fake"):
                 for how in ("cancel", "timeout"):
                     for k in (0, 1, 2, 3, 5, 8, 13, 30):
